@@ -82,6 +82,8 @@ type world struct {
 	stsMode     string // none, testing, enforce, error
 	stsMX       []string
 	destLimit   int
+	msgLimit    int      // concurrency limit of the message scopes (0 = none)
+	msgScopes   []string // which of all / ip / source are limited
 	dnsTempFail bool
 	mxs         []*mxSpec
 	msgs        []*rmsg
@@ -145,6 +147,10 @@ func (w *world) gen() {
 	w.relaxed = s.T.Choose(st, 2) == 1
 	w.stsMode = []string{"none", "testing", "enforce", "enforce", "error"}[s.T.Choose(st, 5)]
 	w.destLimit = []int{0, 1, 2}[s.T.Choose(st, 3)]
+	// the target's own message-scope limits (taken in Start, held until the
+	// delivery is closed - whatever stage it ends at)
+	w.msgLimit = []int{0, 1, 2}[s.T.Choose(st, 3)]
+	w.msgScopes = [][]string{{"all"}, {"ip"}, {"source"}, {"all", "ip", "source"}}[s.T.Choose(st, 4)]
 	w.dnsTempFail = s.T.Choose(st, 8) == 0
 	w.stsModeD = map[string]string{"dest": w.stsMode, "idn": w.stsMode}
 	if s.T.Choose(st, 3) == 2 {
@@ -316,8 +322,17 @@ func (w *world) build() error {
 	if len(pol) > 0 {
 		cfg = append(cfg, config.Node{Name: "mx_auth", Children: pol})
 	}
+	var lim []config.Node
 	if w.destLimit > 0 {
-		cfg = append(cfg, config.Node{Name: "limits", Children: []config.Node{node("destination", "concurrency", fmt.Sprint(w.destLimit))}})
+		lim = append(lim, node("destination", "concurrency", fmt.Sprint(w.destLimit)))
+	}
+	if w.msgLimit > 0 {
+		for _, sc := range w.msgScopes {
+			lim = append(lim, node(sc, "concurrency", fmt.Sprint(w.msgLimit)))
+		}
+	}
+	if len(lim) > 0 {
+		cfg = append(cfg, config.Node{Name: "limits", Children: lim})
 	}
 	mod, err := remote.New("target.remote", "remote", nil, nil)
 	if err != nil {
@@ -728,7 +743,7 @@ func Run(s *simrt.Sim, a *harness.Args, r *harness.Result) {
 func (w *world) shape() string {
 	var sb strings.Builder
 	fmt.Fprintf(&sb, "dane=%v dnssec=%v ext=%v res=%v/%s ad=%v conc=%v ", w.useDANE, w.useDNSSEC, w.ext, w.resolvers, w.firstDown, w.zoneAD, w.concurrent)
-	fmt.Fprintf(&sb, "sts=%v/%s/%v local=%v/%s/%s ovr=%v relax=%v lim=%d dnsfail=%v stsidn=%s stsdelay=%v/%v|", w.useSTS, w.stsModeD["dest"], w.stsMX, w.useLocal, w.minTLS, w.minMX, w.override, w.relaxed, w.destLimit, w.dnsFailD, w.stsModeD["idn"], w.stsDelayD["dest"], w.stsDelayD["idn"])
+	fmt.Fprintf(&sb, "sts=%v/%s/%v local=%v/%s/%s ovr=%v relax=%v lim=%d/%d%v dnsfail=%v stsidn=%s stsdelay=%v/%v|", w.useSTS, w.stsModeD["dest"], w.stsMX, w.useLocal, w.minTLS, w.minMX, w.override, w.relaxed, w.destLimit, w.msgLimit, w.msgScopes, w.dnsFailD, w.stsModeD["idn"], w.stsDelayD["dest"], w.stsDelayD["idn"])
 	for _, m := range w.mxs {
 		p := m.mx.Plan
 		fmt.Fprintf(&sb, "[%s down=%v cname=%v tls=%v/%v cert=%v rtls=%v tlsa=%s]", m.host, m.down, m.cname, p.StartTLS, p.TLSFails, p.Cert, p.RequireTLS, m.tlsa)
@@ -883,6 +898,28 @@ func (w *world) oracleQuarantine() {
 // oracleLimits: after the history every destination permit is free again.
 func (w *world) oracleLimits() {
 	s := w.s
+	if w.msgLimit > 0 {
+		// the message scopes: every permit taken in Start is back
+		mdone, mgot := false, 0
+		s.Spawn("limprobe-msg", nil, func() {
+			g := w.rt.VerifLimits()
+			ip := net.IPv4(198, 51, 100, 7)
+			for i := 0; i < w.msgLimit; i++ {
+				if err := g.TakeMsg(context.Background(), ip, "origin.example"); err != nil {
+					break
+				}
+				mgot++
+			}
+			for i := 0; i < mgot; i++ {
+				g.ReleaseMsg(ip, "origin.example")
+			}
+			mdone = true
+		})
+		s.Run(time.Minute, func() bool { return mdone })
+		if mdone && mgot < w.msgLimit {
+			s.Violate("C11/permit-leak/message-scopes/remote/"+strings.Join(w.msgScopes, "+"), "after the message history only %d of %d permits of the target's %v limit could be taken (message endings: %v)", mgot, w.msgLimit, w.msgScopes, w.endings())
+		}
+	}
 	if w.destLimit == 0 {
 		return
 	}
@@ -903,22 +940,26 @@ func (w *world) oracleLimits() {
 	})
 	s.Run(time.Minute, func() bool { return done })
 	if done && got < w.destLimit {
-		var ends []string
-		for _, m := range w.msgs {
-			e := "delivered"
-			switch {
-			case m.startErr != nil:
-				e = "start-failed"
-			case len(m.rcptErr) > 0:
-				e = "rcpt-failed"
-			case len(m.status) > 0 || m.bodyErr != nil:
-				e = "data-failed"
-			}
-			ends = append(ends, e)
-		}
-		sort.Strings(ends)
-		s.Violate("C11/permit-leak/destination/remote", "after the message history only %d of %d destination permits for %s could be taken (message endings: %v)", got, w.destLimit, destDomain, ends)
+		s.Violate("C11/permit-leak/destination/remote", "after the message history only %d of %d destination permits for %s could be taken (message endings: %v)", got, w.destLimit, destDomain, w.endings())
 	}
+}
+
+func (w *world) endings() []string {
+	var ends []string
+	for _, m := range w.msgs {
+		e := "delivered"
+		switch {
+		case m.startErr != nil:
+			e = "start-failed"
+		case len(m.rcptErr) > 0:
+			e = "rcpt-failed"
+		case len(m.status) > 0 || m.bodyErr != nil:
+			e = "data-failed"
+		}
+		ends = append(ends, e)
+	}
+	sort.Strings(ends)
+	return ends
 }
 
 // oracleC16: every SMTP-annotated error the remote target hands to its caller
